@@ -258,13 +258,11 @@ fn ser_as<T: serde::Serialize + serde::de::DeserializeOwned>(t: T) -> Value {
 fn de_as<T: serde::Serialize + serde::de::DeserializeOwned + std::fmt::Debug>(b: &[u8]) -> Value {
     match ciborium::de::from_reader::<T, _>(b) {
         Err(e) => {
-            let mut s = format!("{e:?}");
-            s.truncate(160);
+            let s: String = format!("{e:?}").chars().take(160).collect();
             json!({"ok": false, "err": s})
         }
         Ok(t) => {
-            let mut d = format!("{t:?}");
-            d.truncate(400);
+            let d: String = format!("{t:?}").chars().take(400).collect();
             match to_cbor(&t) {
                 Ok(b2) => json!({"ok": true, "reser": hex(&b2), "dbg": d}),
                 Err(e) => json!({"ok": true, "reser_err": e, "dbg": d}),
